@@ -102,6 +102,13 @@ def opIfaceStatus (j : Json) : Except String Json := do
   | "ecos" =>
       let pc ← jRat (← fld j "pcost")
       pure (writeSol x.size (ecosSolution status pc xf))
+  | "gurobi" =>
+      let ov ← jRat (← fld j "objval")
+      let inc ← jInt (← fld j "inc")
+      pure (writeSol x.size (grbSolution status (inc != 0) ov xf))
+  | "ortools" =>
+      let ov ← jRat (← fld j "objval")
+      pure (writeSol x.size (ortSolution status ov xf))
   | s => throw s!"unknown iface {s}"
 
 end RsomeV.Drv
